@@ -85,8 +85,23 @@ nni_pollable_getfd(nni_pollable *p, int *fdp)
 		fds = FD_JOIN(wfd, rfd);
 
 		if (nni_atomic_cas64(&p->p_fds, (uint64_t) -1, fds)) {
-			if (nni_atomic_get_bool(&p->p_raised)) {
-				nni_plat_pipe_raise(wfd);
+			// Bring the new descriptor in line with the flag.  A
+			// raise or clear may run concurrently and -- now that
+			// the descriptor is published -- act on it itself, so
+			// repeat while the flag changed under us.
+			bool raised = nni_atomic_get_bool(&p->p_raised);
+			for (;;) {
+				bool now;
+				if (raised) {
+					nni_plat_pipe_raise(wfd);
+				} else {
+					nni_plat_pipe_clear(rfd);
+				}
+				now = nni_atomic_get_bool(&p->p_raised);
+				if (now == raised) {
+					break;
+				}
+				raised = now;
 			}
 			*fdp = rfd;
 			return (NNG_OK);
